@@ -1,6 +1,7 @@
 package main
 
 import (
+	"strings"
 	"encoding/json"
 	"fmt"
 	"sort"
@@ -262,6 +263,33 @@ func setPartitions(keys []string) [][][]string {
 	return out
 }
 
+// nearMissKey derives a key that differs from a variable name in a way a
+// normalising lookup would forgive: zero-padded or re-spelled index, an added
+// or dropped index, letter case, surrounding blanks, a dropped last character.
+func nearMissKey(r *rng.R, name string) string {
+	base, idx := name, ""
+	if i := strings.Index(name, "["); i >= 0 {
+		base, idx = name[:i], name[i:]
+	}
+	var alts []string
+	if idx != "" {
+		alts = append(alts, base+strings.Replace(idx, "[", "[0", 1), base+strings.Replace(idx, "[", "[00", -1), base+strings.Replace(idx, "]", " ]", 1), base+strings.Replace(idx, "[", "[+", 1), base, name+"[0]")
+	} else {
+		alts = append(alts, name+"[0]", name+"[00]", name+"[]")
+	}
+	alts = append(alts, name+" ", " "+name, name+"\x00", name+"_", "_"+name, name+"\n")
+	if u := strings.ToUpper(name); u != name {
+		alts = append(alts, u)
+	}
+	if l := strings.ToLower(name); l != name {
+		alts = append(alts, l)
+	}
+	if len(base) > 1 {
+		alts = append(alts, base[:len(base)-1]+idx)
+	}
+	return alts[r.Intn(len(alts))]
+}
+
 func runC09(c *ctx) {
 	c.Rule = "ellipsis-free templates over all node kinds (nesting <= 6, variables in scalar slots, list variables, ASCII variables with bounds) x assignments (total, partial, empty, with unknown keys, values of every accepted Go type) : FillVariables must equal direct construction with the values in place (String, Variables, Size, ToBytes), equal the model substitution, leave remaining variables in order, refuse exactly when the constructor refuses (out-of-domain values of 12 kinds), compose over every set partition of <= 4 keys (random ordered splits beyond), and keep the message header while filling. non-trivial = at least one key names a variable of the template; distinct by (template, keys, split, bad values)"
 	c.Assume = []string{"fill-in values are variable-free (as the property quantifies)", "direct construction = the repository's own factories called with the values in place"}
@@ -287,6 +315,11 @@ func runC09(c *ctx) {
 		}
 		for j := r.Intn(4); j > 0; j-- {
 			cs.Unknown = append(cs.Unknown, []string{"nosuch", "zz9", "...", "...[7]", "x[99]", "", "1bad", "L"}[r.Intn(8)])
+		}
+		if vars := tpl.Vars(); len(vars) > 0 && r.Chance(1, 3) {
+			// a key that is nearly the name of a variable (names are compared verbatim: v[1] and v[01] are two names)
+			cs.Unknown = append(cs.Unknown, nearMissKey(r, vars[r.Intn(len(vars))]))
+			c.Class("near-miss-unknown-key")
 		}
 		if _, clash := full["nosuch"]; clash {
 			cs.Unknown = nil
@@ -389,7 +422,7 @@ func runC09(c *ctx) {
 			c09Eval(c, cs)
 		}
 	})
-	c.Required = []string{"total-assignment", "partial-assignment", "empty-assignment", "out-of-domain-values", "refused-by-both", "split-into-2", "split-into-3", "message-level", "message-observed-before-fill", "fill-in-item-with-its-own-variable", "unfilled-ellipsis-and-unknown-ellipsis-key"}
+	c.Required = []string{"total-assignment", "partial-assignment", "empty-assignment", "out-of-domain-values", "refused-by-both", "split-into-2", "split-into-3", "message-level", "message-observed-before-fill", "fill-in-item-with-its-own-variable", "unfilled-ellipsis-and-unknown-ellipsis-key", "near-miss-unknown-key"}
 }
 
 func replayC09(c *ctx, raw json.RawMessage) {
